@@ -328,8 +328,29 @@ def premount_finding(v, pre):
     return False
 
 
+def toggled_values():
+    """a dynamic optional value that goes away and comes back UNCHANGED (Some(v) -> None -> Some(v)), as attribute value, as dynamic text
+    and as both: what the DOM holds is what was written last, not what was written before the removal (seed C05-g)"""
+    out = []
+    views = [("el", "span", [("adyn", "title", 0)], []),
+             ("el", "p", [("adyn", "class", 0)], [("dyntext", 0)]),
+             ("el", "div", [("adyn", "data-x", 0), ("adyn", "lang", 1)], [("el", "i", [("adyn", "title", 1)], [("text", "t")])])]
+    seqs = [[None, "v", None, "v"], ["w", None, "w", None, "w"], [None, None, "v", "v", None, "v"], ["", None, "", "v", None, "v"]]
+    for v in views:
+        for init in ("v", None):
+            for sq in seqs:
+                st = {"s": {0: init, 1: init}, "b": {}, "l": {}}
+                ops = []
+                for x in sq:
+                    ops.append(("s", 0, x))
+                    if len(v[2]) > 1:
+                        ops.append(("s", 1, x))
+                out.append((st, v, ops))
+    return out
+
+
 def gen(tier, rng):
-    cases = nested_region_cases(tier, rng)
+    cases = nested_region_cases(tier, rng) + toggled_values()
     n = 700 if tier == "quick" else 8000
     for i in range(n):
         st, v = viewgen.random_view(rng, rng.choice([2, 3, 4]), {"nossr": 0.5, "nohydrate": 0.5})
